@@ -1,6 +1,6 @@
 (* C15 property theorems. Only statements closed by [exact lemma] and Print Assumptions. *)
 From V Require Import Common.Base C15.Names C15.Renamer C15.Spec
-  C15.NamesProofs C15.NumberProofs C15.SlotsProofs C15.MinifyProofs C15.ComposeProofs C15.ResolveProofs C15.ScopeBuild C15.ScopeBuildProofs.
+  C15.NamesProofs C15.NumberProofs C15.SlotsProofs C15.MinifyProofs C15.ComposeProofs C15.ResolveProofs C15.ScopeBuild C15.ScopeProg C15.ScopeBuildProofs.
 
 (* NumberToMinifiedName is injective for every alphabet without repeated characters *)
 Theorem minified_name_injective : forall m,
@@ -243,3 +243,14 @@ Theorem numbered_skeleton_wellformed : forall k,
   wf_slots st m = true /\ wf_number st (module_top m) (sc_children m) = true.
 Proof. exact build_sk_wellformed_all. Qed.
 Print Assumptions numbered_skeleton_wellformed.
+
+(* the forest the model of js_parser's scope construction (ScopeProg.parse_forest:
+   binding-form AST -> skeleton -> numbered forest; compared with the forest the
+   real js_parser.Parse builds by check_scopebuild) produces for EVERY program of
+   the binding-form AST is well-formed: the hypotheses wf_slots / wf_number of the
+   renamer theorems are discharged for parser-built forests *)
+Theorem parser_forest_wellformed : forall prog,
+  let '(m, st) := parse_forest prog in
+  wf_slots st m = true /\ wf_number st (module_top m) (sc_children m) = true.
+Proof. exact parse_forest_wellformed_all. Qed.
+Print Assumptions parser_forest_wellformed.
